@@ -924,7 +924,7 @@ class Interp:
         frame is about to disappear."""
         if depth > 4:
             return v
-        if isinstance(v, Ref) and isinstance(v.root, int) and v.root > fr.body.arg_count and v.root in fr.store:
+        if isinstance(v, Ref) and v.root in fr.store and ((isinstance(v.root, int) and v.root > fr.body.arg_count) or (isinstance(v.root, tuple) and v.root and v.root[0] == 'referent')):
             return self._materialise(fr, fr._project(fr.store.get(v.root, TOP), v.proj), depth + 1)
         if isinstance(v, Opt) and isinstance(v.payload, Ref):
             return Opt(v.tag, self._materialise(fr, v.payload, depth + 1), v.label)
